@@ -40,6 +40,11 @@ impl<E: OnEvictCallback + Clone, S: BuildHasher + Clone> Subject for LruSubj<E, 
             8 => vec![c.len() as i128],
             9 => vec![c.cap() as i128],
             10 => vec![c.is_empty() as i128],
+            // (liar slice) from now on every key hashes differently
+            96 => {
+                crate::types::SALT.store(op[1] as u64, std::sync::atomic::Ordering::Relaxed);
+                vec![]
+            }
             11 => vec![c.resize(k(1) as usize) as i128],
             12 => opt_kv(c.get_lru().map(|(k, v)| (k.id, v.v))),
             13 => opt_kv(c.get_mru().map(|(k, v)| (k.id, v.v))),
